@@ -9,15 +9,16 @@ import (
 
 // Spec tells the oracles what the scenario did.
 type Spec struct {
-	Shutdown  bool        // the scenario calls Shutdown (C02 exactly-once relaxed, C03 oracle on)
-	Order     [][2]string // callback ids (a,b) whose submissions are ordered by happens-before within one group
-	MustRun   []string    // callback ids that must run exactly once (no Shutdown scenarios, or submitted & accepted before Shutdown was called)
-	NoHandler []string    // With ids that must return an error and never run
-	Closes    int         // expected Conn.Close calls (-1: do not check)
-	Query     *QSpec      // query-event scenarios (C15 oracle)
-	Store     bool        // store contention scenarios (C11 oracle)
-	Index     bool        // index maintenance scenario (C13 oracle)
-	Epochs    int
+	Shutdown     bool        // the scenario calls Shutdown (C02 exactly-once relaxed, C03 oracle on)
+	Order        [][2]string // callback ids (a,b) whose submissions are ordered by happens-before within one group
+	MustRun      []string    // callback ids that must run exactly once (no Shutdown scenarios, or submitted & accepted before Shutdown was called)
+	NoHandler    []string    // With ids that must return an error and never run
+	Closes       int         // expected Conn.Close calls (-1: do not check)
+	Query        *QSpec      // query-event scenarios (C15 oracle)
+	Store        bool        // store contention scenarios (C11 oracle)
+	Index        bool        // index maintenance scenario (C13 oracle)
+	Epochs       int
+	StoreHandler bool // SH1 oracle
 	// Late: callback ids / request replies that the scenario submits while the service is started (after a
 	// restart) and whose completion it awaits (AwaitQuiescence) before it calls Shutdown again: they must run
 	// (be answered) exactly once even though the scenario also shuts the service down.
@@ -214,6 +215,9 @@ func Judge(sp *Spec, r *vsched.Result) []string {
 	}
 	if sp.Query != nil {
 		out = append(out, JudgeQuery(sp.Query, r)...)
+	}
+	if sp.StoreHandler {
+		return JudgeStoreHandler(r)
 	}
 	if sp.Store {
 		return JudgeStore(r)
